@@ -36,7 +36,7 @@ fn lex_(mut input: &str, mut start_of_line: bool) -> impl Iterator<Item = (Synta
     std::iter::from_fn(move || {
         if let Some(c) = input.chars().next() {
             match c {
-                ':' if colon_count == 0 => {
+                ':' if colon_count == 0 && indent == 0 => {
                     colon_count += 1;
                     input = &input[1..];
                     Some((SyntaxKind::COLON, ":"))
